@@ -1172,7 +1172,7 @@ def run(ctx):
 
     # ---- oracle 2: random histories incl. text/json setters and the other file methods of body_file
     r2 = ctx.sub_rng("oracle-random")
-    m = ctx.scale(40000, 400000)
+    m = ctx.scale(40000, 300000)
     for _ in range(m):
         cfg = rand_cfg(r2, 70)
         if cfg["seekable"]:
@@ -1218,7 +1218,7 @@ def run(ctx):
     SU = stateful_universe()
     cnt = 0
     for ci, cfg in enumerate([c for c in cfgs if (c["cl"] in (None, "10") and c["limit"] in (2, 10240))][:ctx.scale(4, 6)]):
-        sdepth = 5 if (ctx.thorough and ci < 2) else 4
+        sdepth = 5 if (ctx.thorough and ci < 1) else 4
         for d in range(1, sdepth + 1):
             for hist in itertools.product(SU, repeat=d):
                 cnt += 1
@@ -1231,7 +1231,7 @@ def run(ctx):
     # ---- oracle 6: two independent requests alive at the same time in one process (module/class-level state):
     #      their histories interleaved, each must behave as if it were alone; one class shared, its limit flipped
     r6 = ctx.sub_rng("oracle-two")
-    m = ctx.scale(15000, 100000)
+    m = ctx.scale(15000, 80000)
     for _ in range(m):
         ca, cb = consistent_cfg(r6, 60), consistent_cfg(r6, 60)
         if r6.random() < 0.3:
